@@ -21,6 +21,7 @@ type WriterSpec struct {
 	Codec string `json:"codec"`
 	Ops   []Op   `json:"ops"`
 	Large bool   `json:"-"` // drawn from the large class (informative, not part of the case)
+	Many  bool   `json:"-"` // drawn from the many-row-groups class
 }
 
 // TaskSpec is one instance of a C13 run.
